@@ -151,6 +151,13 @@ class ChangeContents(Change):
     def do(self):
         if self.old_contents is None:
             self.old_contents = self.resource.read()
+        elif self.resource.newlines is None and self.resource.exists():
+            # a change rebuilt from the saved history: reading detects the
+            # newline convention of the file
+            try:
+                self.resource.read()
+            except exceptions.ModuleDecodeError:
+                pass
         # The newline convention of the text that is replaced; it cannot be
         # detected again if the new text has no line break
         self._old_newlines = self.resource.newlines
